@@ -275,7 +275,55 @@ def worker(ctx):
                 acc.violation({'kind': 'parallel', 'case_seed': seed}, v)
 
 
+def probes(ctx):
+    run_probes(ctx, PID, {'reuse-xml': probe_reuse_xml, 'locale-ascii': probe_locale_ascii})
+
+
+def probe_reuse_xml(witness, ctx):
+    """two wrap_file calls on one wrapper with XML docs and equal-named overloads"""
+    from gtwrap.pybind_wrapper import PybindWrapper
+    root = tempfile.mkdtemp(prefix='verif_c14x_')
+    try:
+        open(os.path.join(root, 'index.xml'), 'w').write('<?xml version="1.0"?><doxygenindex><compound refid="classA" kind="class"><name>A</name></compound></doxygenindex>')
+        member = '<memberdef kind="function" id="a%d"><name>f</name><argsstring>(x)</argsstring><param><declname>x</declname></param><briefdescription><para>doc %d</para></briefdescription><detaileddescription/></memberdef>'
+        open(os.path.join(root, 'classA.xml'), 'w').write('<?xml version="1.0"?><doxygen><compounddef id="classA" kind="class"><sectiondef kind="public-func">' + member % (1, 1) + member % (2, 2) + '</sectiondef></compounddef></doxygen>')
+        text = 'class A { void f(int x); void f(double x); };'
+        w = PybindWrapper(module_name='m', top_module_namespaces=[''], ignore_classes=[], module_template=tool.TPL, xml_source=root)
+        first = tool.outcome(w.wrap_file, text, 'm', [])
+        second = tool.outcome(w.wrap_file, text, 'm', [])
+        if first == second:
+            return None
+        return 'second wrap_file on the same wrapper: %s' % (second[1].split(':')[0] if second[0] == 'exc' else 'different output')
+    finally:
+        shutil.rmtree(root, ignore_errors=True)
+
+
+def probe_locale_ascii(witness, ctx):
+    root = tempfile.mkdtemp(prefix='verif_c14l_')
+    try:
+        src = os.path.join(root, 'mod.i')
+        open(src, 'w', encoding='utf-8').write('class A { A(string s = "caf\u00e9"); };\n')
+        env = dict(os.environ, PYTHONPATH=REPO, LC_ALL='C', LANG='C', PYTHONCOERCECLOCALE='0', PYTHONUTF8='0')
+        outs = []
+        for kind in ('pybind', 'matlab'):
+            tpl = os.path.join(root, 'tpl.tpl')
+            open(tpl, 'w').write(tool.TPL)
+            p = subprocess.run(script_cmd(kind, src, os.path.join(root, 'out_' + kind), tpl), cwd=root, env=env,
+                               stdout=subprocess.PIPE, stderr=subprocess.PIPE, timeout=600)
+            outs.append((kind, p.returncode, p.stderr.decode('utf8', 'replace').strip().split('\n')[-1][:60] if p.returncode else ''))
+        bad = [o for o in outs if o[1] != 0]
+        if not bad:
+            return None
+        return '; '.join('%s script fails: %s' % (k, e.split(':')[0]) for k, rc, e in bad)
+    finally:
+        shutil.rmtree(root, ignore_errors=True)
+
+
 def replay(case, ctx):
+    if 'probe' in case:
+        h = {'reuse-xml': probe_reuse_xml, 'locale-ascii': probe_locale_ascii}[case['probe']]
+        s = h(case['witness'], ctx)
+        return [{'observed': s}] if s else []
     if case['kind'] == 'input':
         return check_input(case['case_seed'], case['tier'], ctx.acc, 8)
     return parallel_round(case['case_seed'], ctx.acc)
